@@ -106,6 +106,9 @@ pub enum Op {
     },
     LoginFinish { out: Id, st: Ref, pw: Hex, resp: Ref, ctx: Option<Hex>, ids: WIds, ksf: KsfArg },
     ServerFinish { st: Ref, fin: Ref },
+    /// the key service rotates its key: every externally held key now operates with the
+    /// static key of setup `to` (the setups keep whatever public key they cached)
+    RotateHsmKey { to: Id },
     /// crash/restart of the party holding `id`: persist through `codec`, drop
     /// the live object, continue from the stored bytes
     Reload { id: Id, codec: Codec },
@@ -127,6 +130,7 @@ impl Op {
             Op::LoginFinish { .. } => "LoginFinish",
             Op::ServerFinish { .. } => "ServerFinish",
             Op::Reload { .. } => "Reload",
+            Op::RotateHsmKey { .. } => "RotateHsmKey",
         }
     }
     pub fn outs(&self) -> Vec<Id> {
@@ -142,7 +146,7 @@ impl Op {
             Op::RegStart { st, msg, .. }
             | Op::LoginStart { st, msg, .. }
             | Op::LoginRespond { st, msg, .. } => vec![*st, *msg],
-            Op::ServerFinish { .. } | Op::Reload { .. } => vec![],
+            Op::ServerFinish { .. } | Op::Reload { .. } | Op::RotateHsmKey { .. } => vec![],
         }
     }
     fn refs(&self) -> Vec<&Ref> {
@@ -178,6 +182,7 @@ impl Op {
             }
             Op::Reload { id, .. } => v.push(*id),
             Op::NewSetupWithKey { sk_from, .. } => v.push(*sk_from),
+            Op::RotateHsmKey { to } => v.push(*to),
             Op::TwinSetup { from, .. } => v.push(*from),
             Op::RegFinish { ids, .. } | Op::LoginRespond { ids, .. } | Op::LoginFinish { ids, .. } => {
                 for s in [&ids.client, &ids.server] {
@@ -418,6 +423,8 @@ pub struct Exec<'a> {
     server_done: Vec<(usize, usize, Vec<u8>)>,
     wire: Vec<(Kind, Vec<u8>)>,
     secrets: Vec<(&'static str, Vec<u8>)>,
+    /// after a key rotation in the key service: the public key every externally held key now answers with
+    rotated_pk: Option<Vec<u8>>,
 }
 
 struct Resolved {
@@ -444,6 +451,7 @@ impl<'a> Exec<'a> {
             server_done: Vec::new(),
             wire: Vec::new(),
             secrets: Vec::new(),
+            rotated_pk: None,
         }
     }
 
@@ -696,6 +704,7 @@ impl<'a> Exec<'a> {
         use crate::seams::*;
         let ops = self.w.ops.clone();
         hsm_set_handle_mode(self.w.knobs.hsm_handle);
+        hsm_rotate_to(None);
         for (i, op) in ops.iter().enumerate() {
             Stats::bump(&mut self.stats.ops, op.name());
             let kf = self.w.faults.iter().find_map(|f| match f {
@@ -748,6 +757,7 @@ impl<'a> Exec<'a> {
             }
         }
         hsm_set_handle_mode(false);
+        hsm_rotate_to(None);
         self.finish()
     }
 
@@ -1094,10 +1104,15 @@ impl<'a> Exec<'a> {
                         let (mm, sm2) = match (&sm, &rq.canon) {
                             (Some(Meta::Setup { seed, pk }), Some(rc)) => {
                                 let idx = self.ssess.len();
+                                // an externally held key answers with whatever key the service holds now
+                                let live = match (&self.rotated_pk, su.item.kind) {
+                                    (Some(p), Kind::SetupHsm) => p.clone(),
+                                    _ => pk.clone(),
+                                };
                                 self.ssess.push(SSess {
                                     op: i,
                                     seed: seed.clone(),
-                                    pk: pk.clone(),
+                                    pk: live,
                                     record: recm.clone(),
                                     cred: cred.0.clone(),
                                     ctx: ctx.as_ref().map(|c| c.0.clone()).unwrap_or_default(),
@@ -1240,6 +1255,18 @@ impl<'a> Exec<'a> {
                     Err(f) => Err(f),
                 };
                 self.events.push(Event { op: i, name: op.name(), res: ev, predict: pname(&p).into(), draws: vec![], skipped: false, ksf_calls: vec![], hsm_calls: vec![], fault_fired: false });
+            }
+            Op::RotateHsmKey { to } => {
+                let Some(src) = self.slots.get(to) else { return self.skip(i, op) };
+                if src.item.kind != Kind::Setup || src.native.len() < lens.nh + lens.nsk {
+                    return self.skip(i, op);
+                }
+                let sk = src.native[lens.nh..lens.nh + lens.nsk].to_vec();
+                let pk = self.s.setup_public_key(&src.item.clone()).unwrap_or_default();
+                crate::seams::hsm_rotate_to(Some(sk));
+                self.rotated_pk = Some(pk.clone());
+                Stats::bump(&mut self.stats.faults, "external_key_rotated");
+                self.events.push(Event { op: i, name: op.name(), res: Ok(vec![("live_pk", Hex(pk))]), predict: "-".into(), draws: vec![], skipped: false, ksf_calls: vec![], hsm_calls: vec![], fault_fired: false });
             }
             Op::Reload { id, codec } => {
                 let Some(slot) = self.slots.get(id) else { return self.skip(i, op) };
